@@ -10,6 +10,7 @@ import (
 	"go/constant"
 	"go/token"
 	"go/types"
+	"golang.org/x/tools/go/ssa"
 	"sort"
 	"strings"
 
@@ -246,6 +247,20 @@ func buildVMModel(c *Ctx) *vmModel {
 	for _, w := range writes["sp"] {
 		if w.fn.Name() == "resetCore" || w.fn.Parent() != nil {
 			continue
+		}
+		// a function that only ever stores the constant 0 into sp resets the machine: not a stack helper
+		if k, ok := w.val.(*ssa.Const); ok && w.kind == "store" && k.Value != nil && k.Value.ExactString() == "0" {
+			onlyZero := true
+			for _, w2 := range writes["sp"] {
+				if w2.fn == w.fn {
+					if k2, ok := w2.val.(*ssa.Const); !ok || w2.kind != "store" || k2.Value == nil || k2.Value.ExactString() != "0" {
+						onlyZero = false
+					}
+				}
+			}
+			if onlyZero {
+				continue
+			}
 		}
 		name := w.fn.Name()
 		if _, done := m.helpers[name]; done {
